@@ -821,4 +821,36 @@ def _may_be_none(a: ast.AST) -> bool:
     return False
 
 
-RULES = [("C14.R1", r1), ("C14.R2", r2), ("C14.R3", r3), ("C14.R4", r4), ("C14.R5", r5), ("C14.R6", r6), ("C14.R7", r7), ("C14.R8", r8), ("C14.R9", r9)]
+
+def r10(ctx):
+    """The tokenizer never emits an empty token: every `yield token` is under a truthiness test of the token
+    (an empty operator token would be indexed by the operator merger / resolver)."""
+    P = ctx.project
+    f = P.func("formulaic.parser.algos.tokenize.tokenize")
+    ys = [n for n in ast.walk(f.node) if isinstance(n, ast.Yield) and isinstance(n.value, ast.Name) and n.value.id == "token"]
+    ctx.floor("C14.R10", len(ys), 8, "`yield token` sites in tokenize")
+    for y in ys:
+        ctx.look()
+        st = P.enclosing_stmt(y)
+        ok = False
+        par, child = P.parent(st), st
+        while par is not None and par is not f.node:
+            if isinstance(par, ast.If) and any(child is x for x in par.body):
+                if any(norm(c) == "token" for c in _conjuncts(par.test)):
+                    ok = True
+                    break
+                if isinstance(par.test, ast.Name) and par.test.id == "quote_context":
+                    pass
+            child, par = par, P.parent(par)
+        ctx.check(ok, "C14.R10", "a token is only emitted when it has text", f.module.line(y), ctx.construct(f, text=f"yield token @ {stmt_text(P.parent(st), 50) if P.parent(st) is not None else ''}"),
+                  "`yield token` is not guarded by `if token`: an empty token (e.g. from `%%` or `{}`) reaches the parser and `token.token[0]` raises IndexError")
+
+
+def r11(ctx):
+    """(= C01.R9 closer / C01.R7 nested-parser plumbing) brackets must match by kind; keyword parts of a structured formula are parsed with the
+    caller's (possibly restricted) parser, so disabled operators stay rejected there too."""
+    from .shared import relabel
+    relabel(ctx, "C14.R11", lambda c: c01.closer_matches_opener(c, "C14.R11"), c01.r7)
+
+
+RULES = [("C14.R1", r1), ("C14.R2", r2), ("C14.R3", r3), ("C14.R4", r4), ("C14.R5", r5), ("C14.R6", r6), ("C14.R7", r7), ("C14.R8", r8), ("C14.R9", r9), ("C14.R10", r10), ("C14.R11", r11)]
